@@ -121,11 +121,15 @@ class InterpolatingOpacity(Opacity):
 
         # Max pressure
         if check_pressure_max:
+            if check_temperature_min:
+                return self.xsecGrid[-1, 0, wngrid_filter].ravel()
             self.debug('Max pressure reached. Interpolating temperature only')
             return self.interp_temp_only(T, t_idx_min, t_idx_max, -1, wngrid_filter)
 
         # Max temperature
         if check_temperature_max:
+            if check_pressure_min:
+                return self.xsecGrid[0, -1, wngrid_filter].ravel()
             self.debug('Max temperature reached. Interpolating pressure only')
             return self.interp_pressure_only(P, p_idx_min, p_idx_max, -1, wngrid_filter)
 
